@@ -1770,6 +1770,16 @@ func (x *Exec) convert(in *ssa.Convert) {
 	}
 	// string <-> []byte etc.: opaque
 	r := x.freshVal("conv", in.Type(), x.brk(), x.guard)
+	if fb, ok := in.X.Type().Underlying().(*types.Basic); ok && fb.Info()&types.IsString != 0 {
+		if sl, ok := in.Type().Underlying().(*types.Slice); ok {
+			if eb, ok := sl.Elem().Underlying().(*types.Basic); ok && eb.Kind() == types.Byte && r.Sort == "Slice" {
+				// []byte(s): the content is s (bytesStrOf names the content of a
+				// byte slice; valid while the slice is not written, which govc
+				// does not track: byte slices are never written in contract code)
+				e.assume(x.guard, fmt.Sprintf("(= (bytesStrOf %s) %s)", r.T, v.T))
+			}
+		}
+	}
 	e.note("%s: conversion %s -> %s modelled as an unconstrained value", x.name, shortTypeName(in.X.Type()), shortTypeName(in.Type()))
 	x.vals[in] = r
 }
